@@ -521,6 +521,8 @@ def values_identical(ctx, a, b, node=None):
     if isinstance(a, VRef) and isinstance(b, VRef):
         return a.id == b.id
     if isinstance(a, VOpaque) and isinstance(b, VOpaque):
+        if a.t.sort() != b.t.sort():
+            return False
         return a.t == b.t
     if isinstance(a, VBool) and isinstance(b, VBool):
         return a.t == b.t
@@ -566,6 +568,8 @@ def values_equal(ctx, a, b, node=None):
         h = ctx.hooks.get('opaque_eq')
         if h:
             return h(ctx, a, b)
+        if a.t.sort() != b.t.sort():
+            return False
         return a.t == b.t
     if isinstance(a, VRef) and isinstance(b, VRef):
         if a.id == b.id:
@@ -662,6 +666,11 @@ class Interp:
                 fr.locals.pop(t.id, None)
             elif isinstance(t, ast.Attribute):
                 recv = self.eval(ctx, fr, t.value)
+                if isinstance(recv, VOpaque):
+                    h = ctx.hooks.get('opaque_delattr')
+                    if not (h and h(ctx, recv, t.attr, s)):
+                        raise Unsupported('del attribute of opaque %s' % recv.tag, s)
+                    continue
                 o = ctx.obj(recv)
                 o.f.pop(t.attr, None)
             else:
@@ -728,6 +737,10 @@ class Interp:
         if isinstance(recv, VExc):
             recv.attrs[name] = v
             return
+        if isinstance(recv, VOpaque):
+            h = ctx.hooks.get('opaque_setattr')
+            if h and h(ctx, recv, name, v, node):
+                return
         raise Unsupported('attribute assignment on %r' % (recv,), node)
 
     def unpack(self, ctx, v, n, node):
